@@ -2406,12 +2406,13 @@ func (it *Interp) appendBuiltin(st *state, args []Value, x *ssa.Call) Value {
 			add = append(add, it.load(st, it.sliceElemPtr(s, i), el))
 		}
 	case StrV:
-		if !s.Known {
-			it.unsup("append of symbolic string")
+		cs, ok := toCharsOf(it, s)
+		if !ok {
+			it.unsup("append of a string of unknown length")
 			return OpaqueV{"append"}
 		}
-		for i := 0; i < len(s.S); i++ {
-			add = append(add, it.constBV(uint64(s.S[i]), 8))
+		for _, ch := range cs {
+			add = append(add, BV{W: 8, B: ch.B})
 		}
 	default:
 		it.unsup("append of unsupported value")
